@@ -15,14 +15,18 @@ import (
 )
 
 const (
-	repo     = "/repo"
-	modPath  = "gitee.com/xuesongtao/protoc-go-valid"
-	shimRoot = "/verif/shim"
+	repo    = "/repo"
+	modPath = "gitee.com/xuesongtao/protoc-go-valid"
 )
+
+var shimRoot = "/verif/shim"
 
 func main() {
 	out := flag.String("o", "/verif/.build/overlay.json", "overlay file")
 	flag.Parse()
+	if d := os.Getenv("VERIF_DIR"); d != "" {
+		shimRoot = filepath.Join(d, "shim")
+	}
 	gen := filepath.Join(filepath.Dir(*out), "overlay-src")
 	os.RemoveAll(gen)
 	os.MkdirAll(gen, 0755)
